@@ -16,7 +16,7 @@ ap.add_argument("--seeded", action="store_true")
 ap.add_argument("--keep", action="store_true")
 ap.add_argument("--seed", default="0")
 a = ap.parse_args()
-ROOT = "/tmp/mw"
+ROOT = "/tmp/mw/%d" % os.getpid()
 ENV = dict(os.environ, CARGO_NET_OFFLINE="true", RUST_BACKTRACE="0", VERIF_SEED=a.seed)
 ENV.pop("VERIF_DIR", None)
 
